@@ -116,7 +116,7 @@ func c18Decoder(c *Ctx) *ssa.Function {
 	var canonFn *ssa.Function
 	var rej []ana.Edge
 	for _, ce := range b.CondEdges() {
-		if bd, ok := ana.Match("un<!>(call<*>(p0))", ce.Lit); ok {
+		if bd, ok := ana.MatchX(c.P, "un<!>(call<*>(p0))", ce.Lit); ok {
 			_ = bd
 			canonFn = calleeOf(ce.Lit.Arg(0))
 			rej = append(rej, ce.Edge)
@@ -138,8 +138,8 @@ func c18Decoder(c *Ctx) *ssa.Function {
 			r.Check(!avoid[e.Instr.Block()] && vt.Is("nil"), "C18.canonical-decoder.reject-closed", c.ipos(e.Instr), "ErrNonCanonical only for y >= p or one of the two tabled encodings")
 			continue
 		}
-		_, ok := ana.Match("obj(alloc<ed.Point>, call<(*ed.Point).SetBytes>(self, p0))", vt)
-		_, okE := ana.Match("ext#1(obj(alloc<ed.Point>, call<(*ed.Point).SetBytes>(self, p0)))", et)
+		_, ok := ana.MatchX(c.P, "obj(alloc<ed.Point>, call<(*ed.Point).SetBytes>(self, p0))", vt)
+		_, okE := ana.MatchX(c.P, "ext#1(obj(alloc<ed.Point>, call<(*ed.Point).SetBytes>(self, p0)))", et)
 		r.Check(ok && okE && avoid[e.Instr.Block()], "C18.canonical-decoder.then-setbytes", c.ipos(e.Instr), "otherwise the result (and error) of new(Point).SetBytes(x): %s", short(vt.String(), 120))
 	}
 	r.Check(nTab == 2 && canonFn != nil, "C18.canonical-decoder.tests", c.P.Pos(dec.Pos()), "decoder applies the y<p test and compares with both tabled encodings (%d table comparisons)", nTab)
@@ -263,7 +263,7 @@ func c18Verify(c *Ctx, dec *ssa.Function) {
 			validateFn = calleeOf(acc[0].Lit)
 		}
 		if g.name == "challenge-equal" && len(acc) > 0 {
-			bd, _ := ana.Match(g.acc, acc[0].Lit)
+			bd, _ := ana.MatchX(c.P, g.acc, acc[0].Lit)
 			chalTerm = bd["$c"]
 		}
 	}
@@ -279,7 +279,7 @@ func c18Verify(c *Ctx, dec *ssa.Function) {
 		}
 		if ana.IsConstBool(e.Results[0], true) {
 			ht := b.Of(e.Results[1], e.Instr)
-			_, ok := ana.Match("call<(*"+vrfPkg+"Proof).Hash>("+D+")", ht)
+			_, ok := ana.MatchX(c.P, "call<(*"+vrfPkg+"Proof).Hash>("+D+")", ht)
 			r.Check(ok, "C18.verify-gates.hash-of-proof", c.ipos(e.Instr), "accepted output = Hash() of the decoded proof: %s", short(ht.String(), 160))
 		} else if ana.IsConstBool(e.Results[0], false) {
 			r.Check(b.Of(e.Results[1], e.Instr).Is("nil"), "C18.verify-gates.reject-no-hash", c.ipos(e.Instr), "rejection carries no hash")
@@ -294,7 +294,7 @@ func c18Verify(c *Ctx, dec *ssa.Function) {
 				continue
 			}
 			t := vb.Of(e.Results[0], e.Instr)
-			_, ok := ana.Match("bin<!=>(call<(*ed.Point).Equal>(obj(alloc<ed.Point>, call<(*ed.Point).MultByCofactor>(self, p0)), "+glob("identityPoint")+"), 1)", t)
+			_, ok := ana.MatchX(c.P, "bin<!=>(call<(*ed.Point).Equal>(obj(alloc<ed.Point>, call<(*ed.Point).MultByCofactor>(self, p0)), "+glob("identityPoint")+"), 1)", t)
 			r.Check(ok, "C18.verify-gates.validate-key", c.ipos(e.Instr), "validateKey(Y) = (8·Y != identity): %s", short(t.String(), 200))
 		}
 	}
@@ -306,11 +306,11 @@ func c18Verify(c *Ctx, dec *ssa.Function) {
 		pt := "slice(obj(alloc<[2]*ed.Point>, store(iaddr(self, 0), " + H + "), store(iaddr(self, 1), $Vself)), 0, none)"
 		V := "obj(alloc<ed.Point>, call<(*ed.Point).Negate>(self, load(faddr<gamma>(" + D + "))), call<(*ed.Point).VarTimeMultiScalarMult>(self, " + sc + ", " + pt + "))"
 		want := "call<*>(p0, call<(*ed.Point).Bytes>(" + H + "), load(faddr<gamma>(" + D + ")), " + U + ", " + V + ")"
-		bd, ok := ana.Match(want, chalTerm)
+		bd, ok := ana.MatchX(c.P, want, chalTerm)
 		okV := false
 		if ok {
 			// the second point of the multi-scalar product is the negated Gamma held in V itself
-			_, okV = ana.Match("obj(alloc<ed.Point>, call<(*ed.Point).Negate>(self, load(faddr<gamma>("+D+"))))", bd["$Vself"])
+			_, okV = ana.MatchX(c.P, "obj(alloc<ed.Point>, call<(*ed.Point).Negate>(self, load(faddr<gamma>("+D+"))))", bd["$Vself"])
 		}
 		r.Check(ok && okV, "C18.hash-inputs.verify-algebra", c.P.Pos(fn.Pos()), "c' = challenge(Y bytes, H bytes, Gamma, U = s·B − c·Y, V = s·H − c·Gamma) %s", ana.Explain(want, chalTerm))
 	}
@@ -326,7 +326,7 @@ func c18Codec(c *Ctx, dec *ssa.Function) {
 			}
 			t := b.Of(e.Results[0], e.Instr)
 			want := "slice(obj(alloc<[80]byte>, call<builtin.copy>(slice(slice(self, 0, 80), 0, 32), call<(*ed.Point).Bytes>(load(faddr<gamma>(p0)))), call<builtin.copy>(slice(slice(self, 0, 80), 32, 48), call<(*ed.Scalar).Bytes>(load(faddr<c>(p0)))), call<builtin.copy>(slice(slice(self, 0, 80), 48, none), call<(*ed.Scalar).Bytes>(load(faddr<s>(p0))))), 0, 80)"
-			_, ok := ana.Match(want, t)
+			_, ok := ana.MatchX(c.P, want, t)
 			r.Check(ok, "C18.codec-layout.writer", c.ipos(e.Instr), "Bytes() = Gamma[0:32] ‖ c[32:48] (first 16 bytes) ‖ s[48:80] %s", ana.Explain(want, t))
 		}
 	}
@@ -362,7 +362,7 @@ func c18Codec(c *Ctx, dec *ssa.Function) {
 			}
 			st := b.Of(fn.Params[0], e.Instr)
 			want := "obj(p0, store(faddr<gamma>(self), ext#0(call<*>(slice(p1, 0, 32)))), store(faddr<c>(self), " + cdec + "), store(faddr<s>(self), " + sdec + "))"
-			_, ok := ana.Match(want, st)
+			_, ok := ana.MatchX(c.P, want, st)
 			var gd *ssa.Function
 			if w, _ := ana.Find("store(faddr<gamma>(self), ext#0(call<*>(slice(p1, 0, 32))))", st); w != nil {
 				gd = calleeOf(w.Arg(1))
@@ -418,7 +418,7 @@ func c18Hashes(c *Ctx, dec *ssa.Function) {
 			t := b.Of(e.Results[0], e.Instr)
 			want := "call<(hash.Hash).Sum>(obj(call<crypto/sha512.New>, " + hw(glob("suiteString")) + ", " + hw(glob("proofToHashDomainSeparatorFront")) + ", " +
 				hw("call<(*ed.Point).Bytes>(obj(alloc<ed.Point>, call<(*ed.Point).MultByCofactor>(self, load(faddr<gamma>(p0)))))") + ", " + hw(glob("proofToHashDomainSeparatorBack")) + "), nil)"
-			_, ok := ana.Match(want, t)
+			_, ok := ana.MatchX(c.P, want, t)
 			r.Check(ok, "C18.hash-from-gamma-only.term", c.ipos(e.Instr), "Hash() = SHA512(03 ‖ 03 ‖ (8·gamma).Bytes() ‖ 00): a function of gamma only %s", ana.Explain(want, t))
 		}
 	}
@@ -457,7 +457,7 @@ func c18Hashes(c *Ctx, dec *ssa.Function) {
 			t := b.CallTermAt(ci)
 			switch ana.CalleeName(ci.Common()) {
 			case "(hash.Hash).Sum":
-				_, sumOK = ana.Match("call<(hash.Hash).Sum>("+hist+", _)", t)
+				_, sumOK = ana.MatchX(c.P, "call<(hash.Hash).Sum>("+hist+", _)", t)
 				if !sumOK {
 					r.Viol("C18.hash-inputs.encode-to-curve", c.ipos(ci), "hash-to-curve input is not 03 ‖ 01 ‖ salt ‖ alpha ‖ ctr ‖ 00 with ctr written as the fresh byte of the loop counter: %s", ana.Explain("call<(hash.Hash).Sum>("+hist+", _)", t))
 				}
@@ -465,7 +465,7 @@ func c18Hashes(c *Ctx, dec *ssa.Function) {
 				resetOK = true
 			}
 			if ana.StaticRepoCallee(ci.Common()) == dec {
-				_, candOK = ana.Match(cand, t)
+				_, candOK = ana.MatchX(c.P, cand, t)
 			}
 		}
 		// reset happens on every path back to the loop header
@@ -486,7 +486,7 @@ func c18Hashes(c *Ctx, dec *ssa.Function) {
 				continue
 			}
 			t := b.Of(e.Results[0], e.Instr)
-			_, ok := ana.Match("obj(ext#0("+cand+"), call<(*ed.Point).MultByCofactor>(self, self))", t)
+			_, ok := ana.MatchX(c.P, "obj(ext#0("+cand+"), call<(*ed.Point).MultByCofactor>(self, self))", t)
 			okGate := mustPass(h2c, e.Instr.Block(), plainEdges(edgesMatching(b, "bin<==>(ext#1("+cand+"), nil)"))) &&
 				mustPass(h2c, e.Instr.Block(), plainEdges(edgesMatching(b, "bin<!=>(call<(*ed.Point).Equal>(_, "+glob("identityPoint")+"), 1)")))
 			r.Check(ok && okGate, "C18.hash-inputs.encode-to-curve-result", c.ipos(e.Instr), "H = 8·candidate for the first counter whose candidate decodes canonically and whose multiple is not the identity")
@@ -503,7 +503,7 @@ func c18Hashes(c *Ctx, dec *ssa.Function) {
 			hist := "obj(call<crypto/sha512.New>, " + hw(glob("suiteString")) + ", " + hw(glob("challengeGenerationDomainSeparatorFront")) + ", " + hw("p0") + ", " + hw("p1") + ", " +
 				hw("call<(*ed.Point).Bytes>(p2)") + ", " + hw("call<(*ed.Point).Bytes>(p3)") + ", " + hw("call<(*ed.Point).Bytes>(p4)") + ", " + hw(glob("challengeGenerationDomainSeparatorBack")) + ")"
 			want := "obj(call<ed.NewScalar>, call<(*ed.Scalar).SetCanonicalBytes>(self, slice(obj(alloc<[32]byte>, call<builtin.copy>(slice(self, 0, 32), slice(call<(hash.Hash).Sum>(" + hist + ", _), 0, 16))), 0, 32)))"
-			_, ok := ana.Match(want, t)
+			_, ok := ana.MatchX(c.P, want, t)
 			r.Check(ok, "C18.hash-inputs.challenge", c.ipos(e.Instr), "c = first 16 bytes of SHA512(03‖02‖P1‖P2‖P3‖P4‖P5‖00), zero-extended, as a scalar %s", ana.Explain(want, t))
 		}
 	}
@@ -524,7 +524,7 @@ func c18Hashes(c *Ctx, dec *ssa.Function) {
 				continue
 			}
 			t := b.Of(e.Results[0], e.Instr)
-			_, ok := ana.Match(want, t)
+			_, ok := ana.MatchX(c.P, want, t)
 			r.Check(ok, "C18.hash-inputs.prove", c.ipos(e.Instr), "Prove: x = clamp(SHA512(seed)[0:32]); H = encode(Y, alpha); Gamma = x·H; k = SHA512(SHA512(seed)[32:64] ‖ H) mod L; c = challenge(Y, H, Gamma, k·B, k·H); s = c·x + k; proof = (Gamma, c, s) %s", ana.Explain(want, t))
 			// sibling: same challenge routine as Verify
 			var vchal *ssa.Function
